@@ -4,7 +4,30 @@ import math, itertools
 from engine import Prop, fbits, bitsf, untok, err_kind, load_known
 
 PS = ["1", "2", "inf"]
-PVAL = {"1": 1, "2": 2, "inf": float("inf")}
+# exponents that are not natural numbers (the accumulation is A + B**p for ANY number p): `B**p` is then not an integer even
+# when the point distance B is one (dim = 1 on whole-number heights, a callable returning ints)
+FRAC_PS = ["0.5", "1.5", "2.5", "0.75", "3.25"]
+FRAC_FORMS = ["float", "np.float64", "fn"]
+
+
+def is_frac(p):
+    """p (a string: '0', '1', '2', …, 'inf', or the decimal form of another positive finite number) is not a natural number"""
+    return p != "inf" and not p.isdigit()
+
+
+def pnum(p):
+    """the Python number a string p stands for: int for a natural number, float otherwise"""
+    return float("inf") if p == "inf" else (float(p) if is_frac(p) else int(p))
+
+
+def ptok(p):
+    """protocol token of the value of p: k | inf | x<bits of the float>"""
+    return "x" + fbits(float(p)) if is_frac(p) else p
+
+
+def num_form(p):
+    """the plain Python form of p: int for a natural number, float for infinity and any other number"""
+    return "float" if p == "inf" or is_frac(p) else "int"
 TOL = 1e-9
 TINY = 1e-290
 
@@ -127,7 +150,7 @@ def ocost(a, b, dim, p, cls="enu"):
         return s if dim == 2 else s + (a[2] - b[2]) ** 2
     if p in ("1", "inf"):
         return odist(a, b, dim, cls)
-    return odist(a, b, dim, cls) ** int(p)      # p = 2 (other classes), 3, 4, …
+    return odist(a, b, dim, cls) ** pnum(p)      # p = 2 (other classes), 3, 4, …, 0.5, 1.5, …
 
 
 def acc(p, x, c):
@@ -263,15 +286,27 @@ class P(Prop):
         ("TracklibVerif.Props.C18", "TV.C18.unit_invariant", "ENUCoords, dim 1/2/3: every coordinate of both tracks multiplied by c > 0 (another unit) gives the same coupling and the score multiplied by c**p, for a homogeneous sqrt (the real one; in floats exactly for c a power of two)"),
         ("TracklibVerif.Props.C18", "TV.C18.costBack_nonneg", "accumulated costs are non-negative when the point distance is"),
         ("TracklibVerif.Props.C18", "TV.C18.npow_nonneg", "B**k >= 0 for B >= 0"),
+        ("TracklibVerif.Props.C18", "TV.C18.front_ends_agree", "the front ends the driver runs (matchCallX / compareCallX / runSeqX of Model/DTWReal.lean, exponent any positive number) are matchCall / compareCall / runSeq on every p whose value is a natural number or infinity: the theorems above are about what is run"),
+        ("TracklibVerif.Props.C18", "TV.C18.p2weight_real", "_p2weight(p) for p = x > 0 not a natural number: A + B**x for a type name containing int / float (Python float, numpy.float16/32/64) and for a callable computing it; UnboundLocalError for other types"),
+        ("TracklibVerif.Props.C18", "TV.C18.weightX_mono", "A + B**x is monotone in the accumulated cost whatever B**x is"),
+        ("TracklibVerif.Props.C18", "TV.C18.match_real_correct", "match(track1, track2, DTW, p = x) for x > 0 not a natural number, any class of positions and dim with _distance defined, WHATEVER B**x computes: succeeds, score = least sum of d**x over all couplings (the cost table holds the accumulated costs as computed, also for integer point distances), S is a coupling whose cost is the score, pair/nb_links describe S, nobody left out, swapped call same score when the distance is symmetric"),
+        ("TracklibVerif.Props.C18", "TV.C18.match_fdtw_real_correct", "match(..., FDTW, p = x): same score as DTW and a coupling realising it, when B**x >= 0 on non-negative distances (the real power function is) and big is above every candidate cost"),
+        ("TracklibVerif.Props.C18", "TV.C18.compare_real_value", "compare(DTW | FDTW, p = x) is match followed by (score/nb_links)**(1.0/x); errors are those of match"),
+        ("TracklibVerif.Props.C18", "TV.C18.cost_unit_invariant_real", "every point distance multiplied by c > 0, accumulation A + B**x: same coupling, score multiplied by c**x, for a power function multiplicative at c (the real one; exact arithmetic)"),
+        ("TracklibVerif.Props.C18", "TV.C18.session_history_irrelevant_real", "session_history_irrelevant for the sessions the driver runs (runSeqX: p any positive number in any form), whatever B**x computes"),
+        ("TracklibVerif.Props.C18", "TV.C18.match_real_history", "matchCallX (any p, modes DTW / FRECHET) on a track1 carrying the feature rows of an earlier matching returns what it returns on the same positions without features"),
     ]
     partial = []
     open_statements = ["IEEE rounding: the theorems are over a linear order / ordered field; on the float runs the oracle compares with relative tolerance 1e-9 (no absolute tolerance: the check is the same in every unit of the coordinates)",
-                       "session_history_irrelevant excludes the FDTW modes (3 / 107): their coupling is valid only under the hypotheses of match_fdtw_correct; match_fdtw_history is the single-call statement",
+                       "session_history_irrelevant / session_history_irrelevant_real exclude the FDTW modes (3 / 107): their coupling is valid only under the hypotheses of match_fdtw_correct; match_fdtw_history is the single-call statement",
                        "the swap clause on GeoCoords tracks with dim = 2 is false for fixes of different heights (finding geo-2d-distance-asymmetric): match_onesided is what holds there",
-                       "non-integer exponents (p = 1.5), a dim other than 1, 2, 3 or a callable (`_distance` returns None), tracks whose positions are of two different classes, and STANDARD_PROJ = 2 are neither modelled nor generated"]
+                       "exponents that are not natural numbers (p = 0.5, 1.5, ...): B**x is a parameter of the model (Float.pow in the driver); match_real_correct holds for any such function, match_fdtw_real_correct needs B**x >= 0 on B >= 0; unit_invariant (coordinates multiplied by c) is stated for natural exponents and infinity only (cost_unit_invariant_real is the statement on the point distances for the other exponents)",
+                       "a negative or NaN exponent, a dim other than 1, 2, 3 or a callable (`_distance` returns None), tracks whose positions are of two different classes, and STANDARD_PROJ = 2 are neither modelled nor generated"]
     modelled = ("algo/comparison.py: match and compare as called — dispatch on the integer mode constants (2/3/4, 106/107/108; UnknownModeError otherwise), "
                 "_dtw_matching / _fdtw_matching, _p2weight as its cascade of four tests on (str(type(p)), value of p) with UnboundLocalError when none fires, "
-                "for p = 0, 1, 2, 3, ... and inf in every Python / numpy scalar type and as a callable; _distance as its dispatch on dim (1 / 2 / 3 / callable) and on the "
+                "for p = 0, 1, 2, 3, ... and inf in every Python / numpy scalar type and as a callable, and (Model/DTWReal.lean: the front ends the driver runs) "
+                "for any other positive number p = x (A + B**x, x**(1.0/p) in compare; B**x a parameter, Float.pow in the driver); the cost tables T of _dtw / _fdtw hold the accumulated costs as "
+                "computed (np.zeros: floats), for integer point distances too; _distance as its dispatch on dim (1 / 2 / 3 / callable) and on the "
                 "class of the positions — ENUCoords (abs(dU), norm2D, norm), GeoCoords (AttributeError, distance2DTo = toENUCoords(point).norm2D(), distanceTo through "
                 "toECEFCoords; conversions of Model/Geo.lean), ECEFCoords (AttributeError twice, distanceTo) — with the order of the errors (empty tracks first); "
                 "_dtw (distance matrix, first row/column, forward step, predecessor encoding, backward walk), _fdtw + _update_node "
@@ -284,18 +319,20 @@ class P(Prop):
             "the same shapes in every unit: walks whose unit is 1e-6 .. 1e7 (origin up to 1000 units away), lattices scaled by 2^-20 .. 2^23 (ties survive), and `neardup` walks where four steps in ten are 1e-3 .. 1e-9 of a unit "
             "(or one ulp) — consecutive fixes that differ by less than any fixed tolerance — and one in ten repeats the fix; positions of class ENUCoords (83%), GeoCoords (12%: lon/lat walks of 1e-5 .. 1e-3 degree per step, "
             "steps down to 1e-9 degree, equal heights where the swapped call is compared) and ECEFCoords (5%), including the dim for which _distance is not defined on the class (AttributeError: correspondence only); dim as 1/2/3 or "
-            "(one call in ten) in its function form (Manhattan, Chebyshev, a non-symmetric callable: no swap clause for that one); coordinates as Python floats, Python ints or numpy.float64 (sessions), modes DTW/FDTW/FRECHET, "
+            "(one call in ten) in its function form (Manhattan, Chebyshev, a non-symmetric callable: no swap clause for that one); coordinates as Python floats, Python ints, numpy.int64 or numpy.float64, modes DTW/FDTW/FRECHET, "
             "one case in ten through compare(). Sessions (kind seq): 1..4 calls of match / compare on 2..4 shared tracks, the first or second argument being "
             "a track or what an earlier match returned (55% / 20%), 12% of the tracks already carrying diff/pair/ex/ey features (lists, scalars, a subset); "
             "p = 0, 1, 2, 3, inf in every form (Python int/float, numpy int8..64 / uint8..64 / intc / float16..64, math.inf / numpy.inf / numpy.longdouble(inf), "
             "lambda, builtin max, omitted), mode constants as int / numpy.int64 / float / omitted / a constant of the other front end, dim as int / numpy.int64 / "
             "float / omitted, verbose False / True / omitted, keyword or positional; exhaustive: a matched track matched again for every pair of modes, "
-            "every form of p on fixed pairs. The oracle recomputes the optimum for the requested p on the positions of the objects involved and validates "
+            "every form of p on fixed pairs; exponents that are not natural numbers (0.5, 1.5, 2.5, 0.75, 3.25 as Python float, numpy.float64 or a lambda; 15% of the random calls, "
+            "exhaustively on the 1-D lattice {0,1,2} and with a Manhattan callable on {0,1}^2) and whole-number coordinates handed over as Python ints (30% of the lattice / axis-aligned "
+            "single calls, the exhaustive non-integer-exponent scopes, sessions): point distances that are Python ints for dim = 1 and the integer callables. The oracle recomputes the optimum for the requested p on the positions of the objects involved and validates "
             "every returned matching (for p = 0, where 0**0 is a convention, only the matching). "
             "non-trivial = both tracks have at least 2 observations (a three-way minimum and a back-pointer choice exist); "
             "the input histogram counts the cases where two least predecessors tie")
     trusted = ["priority_dict (heapq with lazy deletion) is modelled by its contract: pop_smallest returns an entry with the least (priority, key)",
-               "numpy float64 `**` and Python float `**` with an integer-valued exponent are modelled by repeated `*` (compared with relative tolerance 1e-9); x**(1.0/k) by sqrt for k = 2 and libm pow otherwise",
+               "numpy float64 `**` and Python float `**` with an integer-valued exponent are modelled by repeated `*` (compared with relative tolerance 1e-9); x**(1.0/k) by sqrt for k = 2 and libm pow otherwise; `B**x` for an exponent that is not a natural number (Python int / float / numpy.float64 base) by Lean's Float.pow, the same libm pow",
                "str(type(p)) is computed by the harness on the object it hands to tracklib and passed to the model (blanks removed); the substring tests are the model's",
                "the function form of dim is modelled by the function the callable computes (three callables, written once in Python and once in the driver); `'function' in str(type(dim))` is not re-tested by the model",
                "on GeoCoords tracks the oracle takes the point distances from the position objects (GeoCoords.distance2DTo / distanceTo called directly, not through _distance): the geodesy is C14's business, the optimum over couplings is recomputed independently",
@@ -328,7 +365,9 @@ class P(Prop):
                     "a matched track matched again, m = match(t1, t2, modeA, pA); match(m, t3, modeB, pB): every pair of modes (9), (pA, pB) in {(1,1), (2,inf), (inf,2)}, all ordered pairs (t1, t2) of sizes 1..3 on the 1-D lattice {0,1,2}, t3 = mirror image of t2 + one point",
                     "every form of p (15 forms of 0, 1, 2, 3; 9 forms of inf) x {DTW, FDTW} x {match, compare} on 6 fixed pairs of tracks (dim 1, 2, 3; with and without ties)",
                     "function form of dim (3 callables: Manhattan, Chebyshev, a non-symmetric one), mode DTW, p in {1,2,inf}: all ordered pairs of tracks of sizes 1..3 on the lattice {0,1}^2",
-                    "positions of class GeoCoords (4 fixed pairs) and ECEFCoords (2 fixed pairs) x dim in {1, 2, 3, 3 callables} x {DTW, FDTW, FRECHET} x {match with p in {1,2,inf}, compare with p = 2}"]
+                    "positions of class GeoCoords (4 fixed pairs) and ECEFCoords (2 fixed pairs) x dim in {1, 2, 3, 3 callables} x {DTW, FDTW, FRECHET} x {match with p in {1,2,inf}, compare with p = 2}",
+                    "exponents that are not natural numbers on integer point distances (coordinates handed over as Python ints), mode DTW with the FDTW and the swapped score: p in {0.5, 1.5}, all ordered pairs of tracks of sizes 1..3 on the 1-D lattice {0,1,2}, dim 1; p = 2.5, sizes 1..4; p = 1.5, Manhattan callable, sizes 1..2 on {0,1}^2; p = 0.5, Chebyshev callable, sizes 1..3 on {0,1}^2",
+                    "p in {0.5, 1.5, 2.5} as Python float / numpy.float64 / lambda x {DTW, FDTW} x {match, compare} on the 6 fixed pairs, the lattice ones also with int coordinates"]
         return ["mode DTW (with the FDTW score and the swapped score), p in {1,2,inf}: all ordered pairs of tracks of sizes 1..3 on the lattice {0,1}^2, dim 2 (84^2 pairs)",
                 "same, all ordered pairs of tracks of sizes 1..3 on the 1-D lattice {0,1,2}, dim 1 (39^2 pairs)",
                 "same, all ordered pairs of tracks of sizes 1..2 on the lattice {0,1,2}^2, dim 2 (90^2 pairs)",
@@ -336,7 +375,9 @@ class P(Prop):
                 "a matched track matched again, m = match(t1, t2, modeA, pA); match(m, t3, modeB, pB): every pair of modes (9), (pA, pB) in {(1,1), (2,inf), (inf,2)}, all ordered pairs (t1, t2) of sizes 1..2 on the 1-D lattice {0,1,2}, t3 = mirror image of t2 + one point",
                 "every form of p (15 forms of 0, 1, 2, 3; 9 forms of inf) x {DTW, FDTW} x {match, compare} on 6 fixed pairs of tracks (dim 1, 2, 3; with and without ties)",
                 "function form of dim (3 callables: Manhattan, Chebyshev, a non-symmetric one), mode DTW, p in {1,2,inf}: all ordered pairs of tracks of sizes 1..2 on the lattice {0,1}^2",
-                "positions of class GeoCoords (4 fixed pairs) and ECEFCoords (2 fixed pairs) x dim in {1, 2, 3, 3 callables} x {DTW, FDTW, FRECHET} x {match with p in {1,2,inf}, compare with p = 2}"]
+                "positions of class GeoCoords (4 fixed pairs) and ECEFCoords (2 fixed pairs) x dim in {1, 2, 3, 3 callables} x {DTW, FDTW, FRECHET} x {match with p in {1,2,inf}, compare with p = 2}",
+                "exponents that are not natural numbers on integer point distances (coordinates handed over as Python ints), mode DTW with the FDTW and the swapped score: p in {0.5, 1.5}, all ordered pairs of tracks of sizes 1..3 on the 1-D lattice {0,1,2}, dim 1; p = 1.5, Manhattan callable, sizes 1..2 on {0,1}^2",
+                "p in {0.5, 1.5, 2.5} as Python float / numpy.float64 / lambda x {DTW, FDTW} x {match, compare} on the 6 fixed pairs, the lattice ones also with int coordinates"]
 
     @staticmethod
     def sym_canon(t, g=3):
@@ -356,13 +397,14 @@ class P(Prop):
         out = []
         th = tier == "thorough"
 
-        def allpairs(g, npts, maxn, dim, mode, ps, canon=False):
+        def allpairs(g, npts, maxn, dim, mode, ps, canon=False, ct=None):
             ts = lat_tracks(npts, maxn)
             for a in ts:
                 if canon and not self.sym_canon(a, g):
                     continue
                 for b in ts:
-                    out.append({"kind": "m", "mode": mode, "ps": ps, "dim": dim, "a": "%d:%s" % (g, a), "b": "%d:%s" % (g, b)})
+                    out.append({"kind": "m", "mode": mode, "ps": ps, "dim": dim, "a": "%d:%s" % (g, a), "b": "%d:%s" % (g, b),
+                                **({"ct": ct} if ct else {})})
         # exhaustive lattices. 1-D lattice {0,1,2}: digits 0..2 of a '3:' string are the points (0, k, k), seen with dim = 1
         allpairs(2, 4, 4 if th else 3, 2, "dtw", PS)
         allpairs(3, 3, 4 if th else 3, 1, "dtw", PS)
@@ -374,6 +416,13 @@ class P(Prop):
             allpairs(3, 9, 2, 2, "dtw", PS)
         allpairs(3, 3, 3, 1, "fdtw", PS)
         allpairs(3, 3, 3, 1, "frechet", ["inf"])
+        # exponents that are not natural numbers, on point distances that are Python ints (coordinates handed over as ints; dim = 1,
+        # or a callable summing coordinate differences): B**p is not an integer although B is
+        allpairs(3, 3, 3, 1, "dtw", ["0.5", "1.5"], ct="int")
+        allpairs(2, 4, 2, "fn.manh", "dtw", ["1.5"], ct="int")
+        if th:
+            allpairs(3, 3, 4, 1, "dtw", ["2.5"], ct="int")
+            allpairs(2, 4, 3, "fn.cheb", "dtw", ["0.5"], ct="int")
         # the function form of `dim` (three callables) on the lattice {0,1}^2; every class of positions x every dim x every mode
         for fn in sorted(DIMFN):
             allpairs(2, 4, 3 if th else 2, fn, "dtw", PS)
@@ -393,11 +442,15 @@ class P(Prop):
             dim = rng.choice([1, 2, 2, 3])
             mode = rng.choice(["dtw", "dtw", "fdtw", "frechet"])
             ps = ["inf"] if mode == "frechet" else [rng.choice(PS)]
+            if mode != "frechet" and rng.random() < 0.15:
+                ps = [rng.choice(FRAC_PS)]
             cls, dim, style = self.rand_positions(rng, dim, style, single=(k % 10 != 9))
             fr = self.rand_frame(rng, style)
             a = self.rand_track(rng, n1, style, fr)
             b = self.rand_track(rng, n2, style, fr)
             extra = {} if cls == "enu" else {"cls": cls}
+            if cls == "enu" and style in ("lat3", "lat2", "line") and rng.random() < 0.3:
+                extra["ct"] = rng.choice(["int", "int", "np.int64"])      # whole-number coordinates handed over as Python ints / numpy.int64
             if k % 10 == 9:
                 out.append({"kind": "cmp", "mode": mode, "p": ps[0], "dim": dim, "a": a, "b": b, **extra})
             else:
@@ -435,6 +488,7 @@ class P(Prop):
                  ([[0.1, 0.2, 0.3], [1.3, -0.7, 0.9], [2.2, 0.4, -1.1]], [[0.3, 0.1, 0.2], [0.9, 1.1, 0.8], [2.5, 0.2, 0.1], [2.9, -0.3, 1.7]], 3),
                  ([[0, 0, 3.5], [0, 0, 1.25], [0, 0, 2.75], [0, 0, 0.5]], [[0, 0, 1.5], [0, 0, 3.0], [0, 0, 0.25]], 1)]
         forms = [(p, pf) for p in ("0", "1", "2", "3") for pf in FIN_FORMS] + [("inf", pf) for pf in INF_FORMS]
+        forms += [(p, pf) for p in ("0.5", "1.5", "2.5") for pf in FRAC_FORMS]
         for (a, b, dim) in fixed:
             for (p, pf) in forms:
                 for mode in ("dtw", "fdtw"):
@@ -443,6 +497,10 @@ class P(Prop):
                             continue
                         out.append({"kind": "seq", "tracks": [a, b], "pre": ["none", "none"],
                                     "steps": [self.step(f, "t0", "t1", mode, p, pf, dim)]})
+                        if isinstance(a, str) and (is_frac(p) or pf in ("int", "float", "fn", "max")):
+                            # the same call on the same lattice tracks with the coordinates handed over as Python ints
+                            out.append({"kind": "seq", "ct": "int", "tracks": [a, b], "pre": ["none", "none"],
+                                        "steps": [self.step(f, "t0", "t1", mode, p, pf, dim)]})
             for cls, fs in ((CLS_UNBOUND, UNBOUND_FORMS), (CLS_LOWPREC, LOWPREC_FORMS)):
                 if cls in self.listed:
                     for pf in fs:
@@ -473,8 +531,8 @@ class P(Prop):
         fr = self.rand_frame(rng, style)
         tracks = [self.rand_track(rng, rng.randint(1, hi), style, fr) for _ in range(nt)]
         pre = [rng.choice(["lists", "scalars", "partial"]) if rng.random() < 0.12 else "none" for _ in range(nt)]
-        ct = rng.choice(["float", "float", "np.float64", "int"]) if cls == "enu" else "float"
-        if ct == "int" and not all(float(v).is_integer() for t in tracks for q in t for v in q):
+        ct = rng.choice(["float", "float", "float", "np.float64", "int", "int", "np.int64"]) if cls == "enu" else "float"
+        if ct in ("int", "np.int64") and not all(float(v).is_integer() for t in tracks for q in t for v in q):
             ct = "float"
         steps, okres = [], []
         for k in range(rng.choice([1, 1, 2, 2, 3, 4])):
@@ -493,6 +551,8 @@ class P(Prop):
                 pf = "default"
             if self.gated(f, mode, p, pf):
                 pf = "float"
+            if rng.random() < 0.15:      # an exponent that is not a natural number
+                p, pf = rng.choice(FRAC_PS), rng.choice(["float", "float", "np.float64", "fn"])
             dim = rng.choice({"enu": [1, 2, 2, 3], "geo": [2, 2, 3, 3, 1], "ecef": [3, 3, 3, 2, 1]}[cls])
             df = rng.choice(["int", "int", "np", "float"]) if dim != 2 or rng.random() < 0.8 else "default"
             if rng.random() < 0.1:
@@ -512,7 +572,7 @@ class P(Prop):
         if cls != "enu":
             case["cls"] = cls
         if ct != "float":
-            case["ct"] = ct      # the coordinates are handed to ENUCoords as Python ints / numpy.float64 instead of Python floats
+            case["ct"] = ct      # the coordinates are handed to ENUCoords as Python ints / numpy.int64 / numpy.float64 instead of Python floats
         return case
 
     def rand_positions(self, rng, dim, style, single):
@@ -656,7 +716,7 @@ class P(Prop):
                     "argument_style": "%s mode=%s dim=%s verbose=%s" % (sts[0]["st"], sts[0]["mf"], sts[0]["df"], sts[0]["vb"])}
         t1, t2 = pts(case["a"]), pts(case["b"])
         return {"kind": case["kind"], "mode": case["mode"], "dim": str(case["dim"]), "positions": case.get("cls", "enu"),
-                **self.geom_tags([t1, t2]),
+                "coordinates": case.get("ct", "float"), **self.geom_tags([t1, t2]),
                 "p": ",".join(case["ps"]) if case["kind"] == "m" else case["p"],
                 "sizes": "%s x %s" % (min(len(t1), 9), min(len(t2), 9)) if max(len(t1), len(t2)) <= 4 else "larger",
                 "tie_between_predecessors": self.has_tie(case) if len(t1) > 1 and len(t2) > 1 else False}
@@ -686,7 +746,7 @@ class P(Prop):
         if pf == "fn":
             if p == "inf":
                 return lambda A, B: max(A, B)
-            k = int(p)
+            k = pnum(p)
             return (lambda A, B: A + (B != 0) * 1) if k == 0 else (lambda A, B: A + B ** k)
         if pf == "max":
             return max
@@ -694,7 +754,9 @@ class P(Prop):
             if pf in ("float", "math.inf", "np.inf"):
                 return {"float": float("inf"), "math.inf": math.inf, "np.inf": np.inf}[pf]
             return getattr(np, pf[3:])("inf")
-        k = int(p)
+        k = pnum(p)
+        if is_frac(p):
+            return k if pf == "float" else getattr(np, pf[3:])(k)
         if pf in ("int", "default"):
             return k
         if pf == "float":
@@ -711,7 +773,7 @@ class P(Prop):
             from tracklib.core.obs import Obs
             from tracklib.core.obs_time import ObsTime
             from tracklib.core.track import Track
-            conv = int if ct == "int" else self.np.float64
+            conv = {"int": int, "np.int64": self.np.int64, "np.float64": self.np.float64}[ct]
             t = Track([Obs(ENUCoords(conv(x), conv(y), conv(z)), ObsTime()) for (x, y, z) in pts(tr)])
         n = t.size()
         if pre == "lists":
@@ -792,7 +854,7 @@ class P(Prop):
             else:
                 mode = (MODE_MATCH if st["f"] == "m" else MODE_CMP)[st["mode"]]
             ty = str(type(self.mkp(st["p"], st["pf"]))).replace(" ", "")
-            val, fnw = (("-", st["p"]) if st["pf"] in ("fn", "max") else (st["p"], "-"))
+            val, fnw = (("-", ptok(st["p"])) if st["pf"] in ("fn", "max") else (ptok(st["p"]), "-"))
             toks.append(":".join([st["f"], str(mode), ty, val, fnw, str(st["dim"]), str(self.idx(case, st["a"])), str(self.idx(case, st["b"]))]))
         return ["C18.seq %s %s %s %s" % (case.get("cls", "enu"), "|".join(self.tok(t) for t in case["tracks"]),
                                       ",".join("0" if q == "none" else "1" for q in case["pre"]), ";".join(toks))]
@@ -848,7 +910,7 @@ class P(Prop):
                     check_matching(Cm, pe, mo, len(t1), len(t2), "model", pe != "0")
                 if bad or not rclose(io["score"], mo["score"], TOL):
                     return "call %d: pairs impl=%s model=%s (%s)" % (k, io["pairs"], mo["pairs"], bad or "scores differ")
-                if self.exact_tracks(t1, t2, st["dim"], case.get("cls", "enu")):
+                if self.exact_tracks(t1, t2, st["dim"], case.get("cls", "enu")) and not is_frac(pe):
                     return "call %d: exact-arithmetic input, yet the couplings differ: impl=%s model=%s" % (k, io["pairs"], mo["pairs"])
                 continue
             if not rclose(io, mo, TOL):
@@ -912,21 +974,23 @@ class P(Prop):
         C = self.C
         if case["kind"] == "seq":
             return self.impl_seq(case)
-        t1, t2 = self.mk(case["a"], case.get("cls", "enu")), self.mk(case["b"], case.get("cls", "enu"))
+        # `ct`: the coordinates are handed to ENUCoords as Python ints / numpy.float64 instead of Python floats
+        t1 = self.mk_pre(case["a"], "none", case.get("ct", "float"), case.get("cls", "enu"))
+        t2 = self.mk_pre(case["b"], "none", case.get("ct", "float"), case.get("cls", "enu"))
         dim, mode = case["dim"], case["mode"]
         if isinstance(dim, str):
             dim = DIMFN[dim]
         if case["kind"] == "cmp":
-            pa = PVAL[self.parg(case)] if mode == "frechet" else PVAL[case["p"]]
+            pa = pnum(self.parg(case)) if mode == "frechet" else pnum(case["p"])
             return {"value": float(C.compare(t1, t2, mode=self.CM[mode], p=pa, dim=dim, verbose=False))}
         res = {}
         for p in case["ps"]:
             # FRECHET must ignore the exponent it is given: it is called with p = 1 or 2 (`parg`), never with inf
-            pa = PVAL[self.parg(case)] if mode == "frechet" else PVAL[p]
+            pa = pnum(self.parg(case)) if mode == "frechet" else pnum(p)
             o = self.out_of(C.match(t1, t2, mode=self.MM[mode], p=pa, dim=dim, verbose=False))
             o["score_swapped"] = float(C.match(t2, t1, mode=self.MM[mode], p=pa, dim=dim, verbose=False).score)
             if mode == "dtw":
-                o["score_fast"] = float(C.match(t1, t2, mode=C.MODE_MATCHING_FDTW, p=PVAL[p], dim=dim, verbose=False).score)
+                o["score_fast"] = float(C.match(t1, t2, mode=C.MODE_MATCHING_FDTW, p=pnum(p), dim=dim, verbose=False).score)
             if mode == "frechet":
                 o["compare"] = float(C.compare(t1, t2, mode=C.MODE_COMPARISON_FRECHET, dim=dim, verbose=False))
             res[p] = o
@@ -944,14 +1008,14 @@ class P(Prop):
         a, b = self.tok(case["a"]), self.tok(case["b"])
         dim, mode, cls = case["dim"], case["mode"], case.get("cls", "enu")
         if case["kind"] == "cmp":
-            return ["C18.compare %s %s %s %s %s %s" % (cls, mode, self.parg(case) if mode == "frechet" else case["p"], dim, a, b)]
+            return ["C18.compare %s %s %s %s %s %s" % (cls, mode, self.parg(case) if mode == "frechet" else ptok(case["p"]), dim, a, b)]
         out = []
         for p in case["ps"]:
-            pa = self.parg(case) if mode == "frechet" else p
+            pa = self.parg(case) if mode == "frechet" else ptok(p)
             out.append("C18.match %s %s %s %s %s %s" % (cls, mode, pa, dim, a, b))
             out.append("C18.match %s %s %s %s %s %s" % (cls, mode, pa, dim, b, a))
             if mode == "dtw":
-                out.append("C18.match %s fdtw %s %s %s %s" % (cls, p, dim, a, b))
+                out.append("C18.match %s fdtw %s %s %s %s" % (cls, ptok(p), dim, a, b))
             if mode == "frechet":
                 out.append("C18.compare %s frechet inf %s %s %s" % (cls, dim, a, b))
         return out
@@ -1002,7 +1066,7 @@ class P(Prop):
                 bad = check_matching(C, p, io, len(t1), len(t2), "implementation") or check_matching(C, p, mo, len(t1), len(t2), "model")
                 if bad or not rclose(io["score"], mo["score"], TOL):
                     return "p=%s: pairs impl=%s model=%s (%s)" % (p, io["pairs"], mo["pairs"], bad or "scores differ")
-                if self.exact(case):
+                if self.exact(case) and not is_frac(p):
                     return "p=%s: exact-arithmetic input, yet the couplings differ: impl=%s model=%s" % (p, io["pairs"], mo["pairs"])
                 for k in ("score", "score_swapped", "score_fast", "compare"):
                     if k in io and not rclose(io[k], mo[k], TOL):
@@ -1160,7 +1224,7 @@ class P(Prop):
             if plain != st:
                 yield dict(case, steps=steps[:k] + [plain] + steps[k + 1:])
             if st["pf"] not in ("int", "float"):
-                yield dict(case, steps=steps[:k] + [dict(st, pf="float" if st["p"] == "inf" else "int")] + steps[k + 1:])
+                yield dict(case, steps=steps[:k] + [dict(st, pf=num_form(st["p"]))] + steps[k + 1:])
             if st["a"][0] == "r":
                 yield dict(case, steps=steps[:k] + [dict(st, a=steps[int(st["a"][1:])]["a"])] + steps[k + 1:])
             if st["b"][0] == "r":
@@ -1193,7 +1257,7 @@ class P(Prop):
         if case["kind"] == "seq":
             return case
         mode, dim = case["mode"], case["dim"]
-        pf = lambda p: "float" if p == "inf" else "int"
+        pf = num_form
         df = "fn" if isinstance(dim, str) else "int"
         steps = []
         if case["kind"] == "cmp":
@@ -1240,6 +1304,8 @@ class P(Prop):
         if case["kind"] == "m" and len(case["ps"]) > 1:
             for p in case["ps"]:
                 yield dict(case, ps=[p])
+        if case.get("ct"):
+            yield {k: v for k, v in case.items() if k != "ct"}
         a, b = pts(case["a"]), pts(case["b"])
         for k in range(len(a)):
             if len(a) > 1:
@@ -1264,13 +1330,27 @@ class P(Prop):
         # the quick scopes again (other random draws) rather than the 290 k cases of the thorough tier
         return self.cases(rng, "quick")
 
+    @staticmethod
+    def mutated_point(rng, cls, tr, others):
+        """a neighbour of a track for the failing-input search: one fix replaced. ENUCoords: a point of the lattice {0,1,2}^3 (ties).
+        GeoCoords / ECEFCoords: a copy of another fix of the case moved by about a metre (1e-5 degree), the height kept — the tracks stay
+        where they are: on GeoCoords the swap clause (dim = 2) is asked only of fixes of equal height a few hundred metres apart at most
+        (`geo-level`), where `distance2DTo` is symmetric up to rounding (finding geo-2d-distance-asymmetric otherwise)"""
+        if cls == "enu":
+            return [float(rng.randint(0, 2)), float(rng.randint(0, 2)), float(rng.randint(0, 2))]
+        q = list(rng.choice(others))
+        u = 1e-5 if cls == "geo" else 1.0
+        return [q[0] + rng.uniform(-1, 1) * u, q[1] + rng.uniform(-1, 1) * u, q[2] + (0.0 if cls == "geo" else rng.uniform(-1, 1) * u)]
+
     def mutate(self, case, rng):
+        cls = case.get("cls", "enu")
         if case["kind"] == "seq":
             for _ in range(20):
                 trs = [[list(q) for q in pts(t)] for t in case["tracks"]]
+                allp = [q for tr in trs for q in tr]
                 for tr in trs:
                     if tr:
-                        tr[rng.randrange(len(tr))] = [float(rng.randint(0, 2)), float(rng.randint(0, 2)), float(rng.randint(0, 2))]
+                        tr[rng.randrange(len(tr))] = self.mutated_point(rng, cls, tr, allp)
                 yield dict(case, tracks=trs)
             return
         a, b = pts(case["a"]), pts(case["b"])
@@ -1281,5 +1361,5 @@ class P(Prop):
             u = [list(q) for q in b]
             for tr in (t, u):
                 k = rng.randrange(len(tr))
-                tr[k] = [float(rng.randint(0, 2)), float(rng.randint(0, 2)), float(rng.randint(0, 2))]
+                tr[k] = self.mutated_point(rng, cls, tr, a + b)
             yield dict(case, a=t, b=u)
